@@ -276,10 +276,13 @@ void run_level(vf::Ctx& c)
         chk = hep::make_multi_channel_chkpt<T, std::mt19937>(ss);
         c.label("start-checkpoint-through-text");
     }
-    auto const result = with_dist
-        ? hep::multi_channel(hep::make_multi_channel_integrand<T>(fd, fam.dims, map, fam.map_dims, channels, hep::make_dist_params<T>(4, T(0), T(1), "x")), calls, chk,
-              hep::callback<Chk>(hep::callback_mode::silent))
-        : hep::multi_channel(hep::make_multi_channel_integrand<T>(f, fam.dims, map, fam.map_dims, channels), calls, chk, hep::callback<Chk>(hep::callback_mode::silent));
+    auto run_from = [&](Chk const& from, std::vector<std::size_t> const& cl) {
+        return with_dist
+            ? hep::multi_channel(hep::make_multi_channel_integrand<T>(fd, fam.dims, map, fam.map_dims, channels, hep::make_dist_params<T>(4, T(0), T(1), "x")), cl, from,
+                  hep::callback<Chk>(hep::callback_mode::silent))
+            : hep::multi_channel(hep::make_multi_channel_integrand<T>(f, fam.dims, map, fam.map_dims, channels), cl, from, hep::callback<Chk>(hep::callback_mode::silent));
+    };
+    auto const result = run_from(chk, calls);
     VF_CHECK(c, result.results().size() == iters, "C08:run-length", "performed " << result.results().size() << " of " << iters << " iterations");
 
     // which channels are disabled at the start
@@ -384,6 +387,26 @@ void run_level(vf::Ctx& c)
             VF_CHECK(c, std::isfinite(d) && d >= T(0), "C08:run-data", "adjustment datum " << vf::show(d));
         }
         prev = wk;
+        ++c.sub;
+    }
+    // the same checkpoint object rolled back to its start and run again with other call counts: every iteration of the
+    // second campaign uses the refinement of ITS predecessor (nothing of the first campaign may linger in the object)
+    {
+        Chk again = result;
+        again.rollback(0);
+        std::vector<std::size_t> calls2 = calls;
+        for (auto& x : calls2) { x += 7; }
+        auto const second = run_from(again, calls2);
+        VF_CHECK(c, second.results().size() == iters, "C08:run-length", "the repeated campaign performed " << second.results().size() << " of " << iters << " iterations");
+        VF_CHECK(c, vf::same_bits(second.results().front().channel_weights(), result.results().front().channel_weights()), "C08:repeated-campaign", "after rollback(0) the first iteration uses "
+            << vf::show(second.results().front().channel_weights()) << ", the first campaign started with " << vf::show(result.results().front().channel_weights()));
+        for (std::size_t k = 1; k < second.results().size(); ++k)
+        {
+            auto const& before = second.results()[k - 1];
+            std::vector<T> const expect = hep::multi_channel_refine_weights(before.channel_weights(), before.adjustment_data(), second.min_weight(), second.beta());
+            VF_CHECK(c, vf::same_bits(expect, second.results()[k].channel_weights()), "C08:repeated-campaign", "campaign repeated after rollback(0): iteration " << k << " used "
+                << vf::show(second.results()[k].channel_weights()) << ", the refinement of its predecessor is " << vf::show(expect));
+        }
         ++c.sub;
     }
     std::vector<T> const next = result.channel_weights();
